@@ -110,7 +110,8 @@ def proj_bind_c07(line):
         return line
     if k == "PARSE-ERR":
         return k
-    return "PREPARED"
+    # second half of C07: a prepared statement run with arguments is accepted or rejected
+    return "PREPARED RUN-OK" if k == "OK" else "PREPARED RUN-REJECTED"
 
 
 def proj_bind_c08(line):
@@ -528,7 +529,7 @@ PROPS = {
     "C03": {"uses_genconsts": True, "runs": [bind_run(proj_bind_c03, ["C03"])]},
     "C04": {"uses_genconsts": True, "runs": [bind_run(proj_bind_c04, ["C04"])]},
     "C05": {"uses_genconsts": True, "runs": [bind_run(proj_bind_c05, ["C05"]), tx_run_spec(["C05"], compare=True, nq=200)]},
-    "C07": {"uses_genconsts": True, "runs": [bind_run(proj_bind_c07, ["C07"])]},
+    "C07": {"uses_genconsts": True, "runs": [bind_run(proj_bind_c07, ["C07"], nq=8000)]},
     "C08": {"uses_genconsts": True, "runs": [bind_run(proj_bind_c08, ["C08"])]},
     "C01": {
         "uses_genconsts": True,
